@@ -4,7 +4,8 @@
 (* real emit_otlp emitter talking to the scripted loopback collector.      *)
 (*                                                                         *)
 (* Trace events (ndjson, in the order of the recorder's single mutex):     *)
-(*   Reset(sc, http1)            a new scenario starts                     *)
+(*   Reset(sc, http1, res, hdr)  a new scenario starts; the resource tag    *)
+(*                               and custom header values it configures     *)
 (*   Emit(id, sig)               the harness is about to emit event id,    *)
 (*                               which qualifies for signal sig            *)
 (*   Connect(ep, conn)           the collector accepted a connection       *)
@@ -31,10 +32,10 @@ Rec == ndJsonDeserialize(IOEnv.TRACE)
 Sigs == {"logs", "traces", "metrics"}
 NoPend == [st |-> "none", ids |-> {}]
 
-VARIABLES l, sc, http1, emitted, sigOf, acked, dirty, pend, broken, conns, streak,
+VARIABLES l, sc, http1, wantRes, wantHdr, emitted, sigOf, acked, dirty, pend, broken, conns, streak,
           failedEver, verdicts
 
-vars == <<l, sc, http1, emitted, sigOf, acked, dirty, pend, broken, conns, streak,
+vars == <<l, sc, http1, wantRes, wantHdr, emitted, sigOf, acked, dirty, pend, broken, conns, streak,
           failedEver, verdicts>>
 
 E == Rec[l]
@@ -43,7 +44,7 @@ IsEv(name) == l <= Len(Rec) /\ E.ev = name
 Flag(ok, name) == IF ok THEN <<>> ELSE <<[sc |-> sc, at |-> l, clause |-> name]>>
 
 Init ==
-    /\ l = 1 /\ sc = 0 /\ http1 = TRUE
+    /\ l = 1 /\ sc = 0 /\ http1 = TRUE /\ wantRes = "" /\ wantHdr = ""
     /\ emitted = {} /\ sigOf = <<>> /\ acked = <<>>
     /\ dirty = FALSE
     /\ pend = [s \in Sigs |-> NoPend]
@@ -55,7 +56,7 @@ Init ==
 
 Reset ==
     /\ IsEv("Reset")
-    /\ sc' = E.sc /\ http1' = E.http1
+    /\ sc' = E.sc /\ http1' = E.http1 /\ wantRes' = E.res /\ wantHdr' = E.hdr
     /\ emitted' = {} /\ sigOf' = <<>> /\ acked' = <<>>
     /\ dirty' = FALSE
     /\ pend' = [s \in Sigs |-> NoPend]
@@ -73,14 +74,14 @@ EmitEv ==
     /\ acked' = (E.id :> 0) @@ acked
     /\ verdicts' = verdicts \o Flag(E.id \notin emitted, "TraceIdsUnique")
     /\ l' = l + 1
-    /\ UNCHANGED <<sc, http1, dirty, pend, broken, conns, streak, failedEver>>
+    /\ UNCHANGED <<sc, http1, wantRes, wantHdr, dirty, pend, broken, conns, streak, failedEver>>
 
 Connect ==
     /\ IsEv("Connect")
     /\ conns' = conns \cup {<<E.ep, E.conn>>}
     /\ verdicts' = verdicts \o Flag(\A c \in conns : c[2] # E.conn, "ConnIdsFresh")
     /\ l' = l + 1
-    /\ UNCHANGED <<sc, http1, emitted, sigOf, acked, dirty, pend, broken, streak, failedEver>>
+    /\ UNCHANGED <<sc, http1, wantRes, wantHdr, emitted, sigOf, acked, dirty, pend, broken, streak, failedEver>>
 
 Req ==
     /\ IsEv("Req")
@@ -96,6 +97,11 @@ Req ==
            \* a broken connection is replaced by a fresh one
            FreshConnAfterBreak == broken[ep] # 0 => E.conn # broken[ep]
            OnKnownConn == <<ep, E.conn>> \in conns
+           \* configuration forms the delivery rules do not depend on: every request carries the
+           \* configured resource (none when not configured) and the configured custom headers
+           \* (all values of a repeated key, in order; none when not configured)
+           ResourceCarried == (E.known /\ ~E.bad) => E.res = wantRes
+           HeadersCarried == E.known => E.hdr = wantHdr
            isAck == E.ack /\ WellFormed
            \* (dec: ack | reject | stall | stallbody | stalltrail | dropb | dropa | after_stall;
            \*  a stall after the response head leaves the connection usable)
@@ -122,9 +128,11 @@ Req ==
                                \o Flag(ResendSame, "ResendSame")
                                \o Flag(FreshConnAfterBreak, "FreshConnAfterBreak")
                                \o Flag(OnKnownConn, "RequestOnAcceptedConn")
+                               \o Flag(ResourceCarried, "ResourceCarried")
+                               \o Flag(HeadersCarried, "HeadersCarried")
                                \o Flag(SignalsIndependent, "SignalsIndependent")
     /\ l' = l + 1
-    /\ UNCHANGED <<sc, http1, emitted, sigOf, conns>>
+    /\ UNCHANGED <<sc, http1, wantRes, wantHdr, emitted, sigOf, conns>>
 
 Flush ==
     /\ IsEv("Flush")
@@ -144,13 +152,13 @@ Flush ==
                                \o Flag(NoPendingRetry, "NoPendingRetry")
                                \o Flag(FlushCompletes, "FlushCompletes")
     /\ l' = l + 1
-    /\ UNCHANGED <<sc, http1, emitted, sigOf, acked, dirty, pend, broken, conns, streak, failedEver>>
+    /\ UNCHANGED <<sc, http1, wantRes, wantHdr, emitted, sigOf, acked, dirty, pend, broken, conns, streak, failedEver>>
 
 Done ==
     /\ l = Len(Rec) + 1
     /\ PrintT(<<"VERDICTS", ToJson([n |-> Len(verdicts), first |-> SubSeq(verdicts, 1, IF Len(verdicts) > 40 THEN 40 ELSE Len(verdicts))])>>)
     /\ l' = l + 1
-    /\ UNCHANGED <<sc, http1, emitted, sigOf, acked, dirty, pend, broken, conns, streak, failedEver, verdicts>>
+    /\ UNCHANGED <<sc, http1, wantRes, wantHdr, emitted, sigOf, acked, dirty, pend, broken, conns, streak, failedEver, verdicts>>
 
 Next == Reset \/ EmitEv \/ Connect \/ Req \/ Flush \/ Done
 
